@@ -389,3 +389,183 @@ Section Parsed.
       try (destruct H as [(lxx & Hxx)|Hxx]; discriminate); try (left; eexists; reflexivity); try (right; reflexivity).
   Qed.
 End Parsed.
+
+(* ====================================================================== *)
+(* 4. Escaping and markup                                                   *)
+(* ====================================================================== *)
+Ltac esc_cases H :=
+  unfold esc_char in H;
+  repeat match type of H with
+         | context [Ascii.eqb ?c ?d] => let n := fresh "n" in destruct (Ascii.eqb_spec c d) as [->|n]
+         end.
+
+Lemma esc_char_inj c1 c2 r1 r2 :
+  (esc_char c1 ++ r1)%string = (esc_char c2 ++ r2)%string -> c1 = c2 /\ r1 = r2.
+Proof.
+  intros H. esc_cases H; cbn in H; inversion H; subst; try (split; [reflexivity | assumption || reflexivity]);
+    try congruence; exfalso; congruence.
+Qed.
+
+Lemma esc_char_nonempty c r : (esc_char c ++ r)%string <> EmptyString.
+Proof. intros H. esc_cases H; cbn in H; discriminate. Qed.
+
+(* html.escape(.., quote=True) is injective on ALL strings (hence on every TEAL source line) *)
+Theorem esc_inj : forall s1 s2, esc s1 = esc s2 -> s1 = s2.
+Proof.
+  induction s1 as [|c1 r1 IH]; intros [|c2 r2] H; cbn [esc] in H.
+  - reflexivity.
+  - exfalso. symmetry in H. apply (esc_char_nonempty _ _ H).
+  - exfalso. apply (esc_char_nonempty _ _ H).
+  - destruct (esc_char_inj _ _ _ _ H) as (-> & Hr). rewrite (IH _ Hr). reflexivity.
+Qed.
+
+Fixpoint has_char (c : ascii) (s : string) : bool :=
+  match s with EmptyString => false | String d r => Ascii.eqb d c || has_char c r end.
+
+Lemma has_char_app c a b : has_char c (a ++ b)%string = has_char c a || has_char c b.
+Proof. induction a as [|d a IH]; cbn [append has_char]; [reflexivity|]. rewrite IH, orb_assoc. reflexivity. Qed.
+
+Definition raw_markup_char (c : ascii) : bool :=
+  Ascii.eqb c "<" || Ascii.eqb c ">" || Ascii.eqb c (ascii_of_nat 34) || Ascii.eqb c "'".
+
+Lemma esc_char_clean c d : raw_markup_char d = true -> has_char d (esc_char c) = false.
+Proof.
+  unfold raw_markup_char. intros Hd.
+  assert (Hcases : d = "<"%char \/ d = ">"%char \/ d = ascii_of_nat 34 \/ d = "'"%char).
+  { repeat (apply orb_true_iff in Hd; destruct Hd as [Hd|Hd]); apply Ascii.eqb_eq in Hd; auto. }
+  unfold esc_char.
+  repeat match goal with
+         | |- context [Ascii.eqb ?x ?y] => let n := fresh "n" in destruct (Ascii.eqb_spec x y) as [->|n]
+         end;
+    destruct Hcases as [-> | [-> | [-> | -> ]]]; try reflexivity; cbn [has_char orb];
+    match goal with |- (Ascii.eqb ?x ?y || false)%bool = false => destruct (Ascii.eqb_spec x y); [congruence | reflexivity] end.
+Qed.
+
+(* no raw <, >, double or single quote survives: the escaped text cannot close or open markup of the label *)
+Theorem esc_clean s d : raw_markup_char d = true -> has_char d (esc s) = false.
+Proof.
+  intros Hd. induction s as [|c r IH]; cbn [esc has_char]; [reflexivity|].
+  rewrite has_char_app, IH, (esc_char_clean c d Hd). reflexivity.
+Qed.
+
+(* an ampersand in the escaped text always starts one of the five entities: stated through injectivity above *)
+
+Lemma slen_app a b : String.length (a ++ b)%string = String.length a + String.length b.
+Proof. induction a as [|c a IH]; cbn [append String.length]; [reflexivity|]. rewrite IH. reflexivity. Qed.
+
+Lemma app_inv_tail_str x : forall a b, (a ++ x)%string = (b ++ x)%string -> a = b.
+Proof.
+  induction a as [|c a IH]; intros [|d b] H; cbn [append] in H.
+  - reflexivity.
+  - exfalso. apply (f_equal String.length) in H. cbn [String.length] in H. rewrite slen_app in H. lia.
+  - exfalso. apply (f_equal String.length) in H. cbn [String.length] in H. rewrite slen_app in H. lia.
+  - injection H as -> H. rewrite (IH _ H). reflexivity.
+Qed.
+
+Lemma app_inv_head_str a : forall x y, (a ++ x)%string = (a ++ y)%string -> x = y.
+Proof. induction a as [|c a IH]; intros x y H; cbn [append] in H; [exact H|]. injection H as H. apply IH, H. Qed.
+
+(* the markup of a row text is recoverable: the text of a row determines whether it is marked and the source text *)
+Theorem mark_esc_inj m1 m2 s1 s2 : mark m1 (esc s1) = mark m2 (esc s2) -> m1 = m2 /\ s1 = s2.
+Proof.
+  assert (Hlt : raw_markup_char "<" = true) by reflexivity.
+  destruct m1, m2; cbn [mark]; intros H.
+  - split; [reflexivity | apply esc_inj, H].
+  - exfalso. apply (f_equal (has_char "<")) in H. rewrite (esc_clean s1 _ Hlt) in H. cbn in H. discriminate.
+  - exfalso. apply (f_equal (has_char "<")) in H. rewrite (esc_clean s2 _ Hlt) in H. cbn in H. discriminate.
+  - split; [reflexivity|]. apply esc_inj. apply (app_inv_head_str "<B><I>") in H. apply (app_inv_tail_str "</I></B>"), H.
+Qed.
+
+(* two rows of one label with the same line and text cell are rows of the same source text and markup; strip itself is
+   of course not injective: the label shows the stripped line (row_src), `  int 1` and `int 1` look alike *)
+Theorem strip_not_injective_refuted : exists a b, a <> b /\ strip a = strip b.
+Proof. exists "  int 1", "int 1". split; [discriminate | reflexivity]. Qed.
+
+(* ====================================================================== *)
+(* 5. all_subroutines_to_dot: file names                                    *)
+(* ====================================================================== *)
+Theorem all_subroutines_files_gen_eq t prefix :
+  all_subroutines_files_gen t prefix = Some (sub_cfg_files_prefixed prefix t).
+Proof.
+  unfold all_subroutines_files_gen, sub_cfg_files_prefixed.
+  assert (Ep : (if str_truth prefix then ret (String.append prefix "_") else ret prefix) = Some (file_prefix prefix)).
+  { unfold str_truth, file_prefix. destruct (prefix =? "")%string eqn:E; cbn [negb].
+    - apply String.eqb_eq in E. subst prefix. reflexivity.
+    - reflexivity. }
+  rewrite Ep. cbn [bind].
+  set (pf := file_prefix prefix).
+  erewrite (fold_some (fun st elt => ret (st ++ [(String.append pf (String.append "subroutine_" (String.append (fst elt) "_cfg.dot")), snd elt)]))
+                      (fun st elt => st ++ [(String.append pf (String.append "subroutine_" (String.append (fst elt) "_cfg.dot")), snd elt)]));
+    [|intros; reflexivity].
+  cbn [bind ret]. rewrite fold_app_map. unfold attr_subroutines_items, attr_main. rewrite map_map. reflexivity.
+Qed.
+
+Theorem sub_cfg_files_prefixed_empty t : sub_cfg_files_prefixed "" t = sub_cfg_files t.
+Proof. reflexivity. Qed.
+
+(* distinct routines are written to distinct files (no export overwrites another) *)
+Theorem sub_cfg_file_names_distinct prefix t :
+  NoDup (map s_name (t_subs t)) -> NoDup (map fst (sub_cfg_files_prefixed prefix t)).
+Proof.
+  intros Hn. unfold sub_cfg_files_prefixed. cbn [map fst]. rewrite map_map. cbn [fst]. constructor.
+  - intros Hin. apply in_map_iff in Hin. destruct Hin as (s & E & _).
+    apply app_inv_head_str in E. discriminate.
+  - induction (t_subs t) as [|s l IH]; cbn [map]; [constructor|]. inversion Hn as [|? ? Hs Hl]; subst.
+    constructor; [|apply IH; exact Hl]. intros Hin. apply in_map_iff in Hin. destruct Hin as (s' & E & Hs').
+    apply app_inv_head_str in E. apply (app_inv_head_str "subroutine_") in E. apply app_inv_tail_str in E.
+    apply Hs. rewrite <- E. apply in_map. exact Hs'.
+Qed.
+
+(* ====================================================================== *)
+(* 6. Non-vacuity: a concrete contract (the tool writes exactly these rows) *)
+(* ====================================================================== *)
+Definition nl : string := String (ascii_of_nat 10) "".
+Definition ex_rows_lines : list string :=
+  ["#pragma version 6"; "// call the routine"; "  callsub a&b"; "int 1  // <ok>"; "txn ApplicationID"; "return"; "a&b:"; "retsub"].
+Definition ex_rows_text : string := join nl ex_rows_lines.
+Definition ex_rows_prog : prog := Eval vm_compute in match parse_program ex_rows_text with Ok p => p | Err _ => [] end.
+Definition ex_rows_teal : teal := Eval vm_compute in teal_of_prog ex_rows_prog.
+
+Example ex_rows_parsed : parse_program ex_rows_text = Ok ex_rows_prog /\ parse_teal ex_rows_prog = Ok ex_rows_teal.
+Proof. split; vm_compute; reflexivity. Qed.
+
+Example ex_rows_labels :
+  map (fun b => bb_label_gen ex_rows_teal (splitlines ex_rows_text) (fun _ => "0x00") (b_idx b) default_rowconfig)
+      (t_blocks ex_rows_teal)
+  = [Some (mkLabel 0 "BLACK"
+             [CHead 1 2 "// block_id = 0; cost = 1";
+              CRow "BLACK" "" "" 1 "#pragma version 6";
+              CRow "BLACK" "" "// call the routine<BR/>" 3 "<B><I>callsub a&amp;b</I></B>"]);
+     Some (mkLabel 1 "BLACK"
+             [CHead 4 2 "// block_id = 1; cost = 3";
+              CRow "BLACK" "" "" 4 "int 1  // &lt;ok&gt;";
+              CRow "BLACK" "<B>// ApplicationID is 0 in Creation Txn</B><BR/>" "" 5 "txn ApplicationID";
+              CRow "BLACK" "" "" 6 "return"]);
+     Some (mkLabel 2 "BLACK"
+             [CHead 7 2 "// block_id = 2; cost = 1<BR/>// Subroutine a&amp;b";
+              CRow "BLACK" "" "" 7 "a&amp;b:";
+              CRow "BLACK" "" "" 8 "<B><I>retsub</I></B>"])].
+Proof. vm_compute. reflexivity. Qed.
+
+Example ex_rows_model :
+  map (fun b => map (fun r => (row_line r, row_src r, row_markup r)) (block_rows (fun _ => "0x00") (splitlines ex_rows_text) ex_rows_teal b))
+      (t_blocks ex_rows_teal)
+  = [[(1, "#pragma version 6", MPlain); (3, "callsub a&b", MBoldItalic)];
+     [(4, "int 1  // <ok>", MPlain); (5, "txn ApplicationID", MPlain); (6, "return", MPlain)];
+     [(7, "a&b:", MPlain); (8, "retsub", MBoldItalic)]].
+Proof. vm_compute. reflexivity. Qed.
+
+Example ex_rows_files :
+  all_subroutines_files_gen ex_rows_teal "p" = Some (sub_cfg_files_prefixed "p" ex_rows_teal) /\
+  map fst (sub_cfg_files_prefixed "p" ex_rows_teal) = ["p_contract_shortened_cfg.dot"; "p_subroutine_a&b_cfg.dot"] /\
+  map fst (sub_cfg_files_prefixed "" ex_rows_teal) = ["contract_shortened_cfg.dot"; "subroutine_a&b_cfg.dot"].
+Proof. repeat split; vm_compute; reflexivity. Qed.
+
+(* a dangling instruction reference makes the generated function raise, the model has no row *)
+Example ex_rows_dangling :
+  instruction_to_dot_gen ex_rows_teal (splitlines ex_rows_text) (fun _ => "0x00") 99 default_rowconfig = None /\
+  ins_row (fun _ => "0x00") (splitlines ex_rows_text) (t_prog ex_rows_teal) 99 = None.
+Proof. split; vm_compute; reflexivity. Qed.
+
+Example ex_esc : esc "a<b>&""c'" = "a&lt;b&gt;&amp;&quot;c&#x27;" /\ esc "&amp;" = "&amp;amp;".
+Proof. split; vm_compute; reflexivity. Qed.
